@@ -630,6 +630,71 @@ class C17(core.PropertyCheck):
     def finding_key(self, case, impl, desc):
         return desc.split(":")[0]
 
+    # ---- the tree changes while it is being scanned -------------------------------------
+    def extra_checks(self, tier, rng):
+        """get_files is a lazy generator that the build consumes while parsing: between two `next()` calls the tree may change.
+        Scenario: after the first path came out (the root's own files are yielded before the walk descends), every real
+        sub-directory of the scan root that was queued is replaced by a symbolic link to a directory OUTSIDE the project holding
+        files of the same names. Whatever comes out afterwards must still resolve inside the jail at the moment it is yielded
+        (that is what the re-check of every base directory and of every file after resolving is for)."""
+        from snooty import util
+        n = 40 if tier == "quick" else 400
+        viol, ran, swapped, yielded_after = [], 0, 0, 0
+        for k in range(n):
+            T = os.path.realpath(tempfile.mkdtemp(prefix="snooty-verif-c17swap-", dir=TMPBASE))
+            try:
+                root = os.path.join(T, "proj")
+                outside = os.path.join(T, "outside")
+                os.makedirs(root)
+                os.makedirs(outside)
+                with open(os.path.join(root, "index.txt"), "w") as f:
+                    f.write("x\n")
+                subs = []
+                for i in range(rng.randint(1, 4)):
+                    d = os.path.join(root, f"d{i}")
+                    os.makedirs(os.path.join(d, "deep") if rng.random() < 0.5 else d)
+                    names = [f"f{j}.txt" for j in range(rng.randint(1, 3))]
+                    for nm in names:
+                        open(os.path.join(d, nm), "w").write("in\n")
+                    if os.path.isdir(os.path.join(d, "deep")):
+                        open(os.path.join(d, "deep", "g.txt"), "w").write("in\n")
+                    m = os.path.join(outside, f"m{i}")
+                    os.makedirs(os.path.join(m, "deep"))
+                    for nm in names + ["extra.txt"]:
+                        open(os.path.join(m, nm), "w").write("OUT\n")
+                    open(os.path.join(m, "deep", "g.txt"), "w").write("OUT\n")
+                    subs.append((d, m))
+                jail_mode = rng.random() < 0.5
+                jail = Path(root) if jail_mode else None
+                gen = util.get_files(Path(root), (".txt",), jail, {})
+                escapes, got = [], []
+                first = next(gen, None)
+                if first is None:
+                    continue
+                got.append(first)
+                for d, m in subs:
+                    if rng.random() < 0.8:
+                        os.rename(d, d + ".moved-away")
+                        shutil.move(d + ".moved-away", os.path.join(T, "trash-" + os.path.basename(d)))
+                        os.symlink(m, d)
+                        swapped += 1
+                ran += 1
+                for p in gen:
+                    real = os.path.realpath(p)
+                    yielded_after += 1
+                    if not _inside(real, os.path.realpath(root)):
+                        escapes.append([os.path.relpath(str(p), T), os.path.relpath(real, T)])
+                if escapes:
+                    viol.append({"case": {"kind": "swap", "subdirs": len(subs), "jail": jail_mode, "escapes": escapes[:4]},
+                                 "desc": ("jail: after queued sub-directories were replaced by links to a directory outside the project during the scan, "
+                                          f"get_files yielded {escapes[0][0]} which resolves to {escapes[0][1]}"),
+                                 "key": "jail-swap"})
+                    break
+            finally:
+                cleanup(T)
+        return viol, {"tree_changes_during_scan": {"scenarios": ran, "directories_swapped": swapped, "paths_yielded_after_the_swap": yielded_after,
+                                                     "what": "queued real sub-directories replaced by links to outside mirrors after the first yield; every later path must resolve inside the root"}}
+
     # ---- evidence -----------------------------------------------------------------------
     def nontrivial_key(self, case, impl):
         if any(o[0] == "l" for o in case["ops"] if o[1] != "plink") or (impl.get("facts") or {}).get("nested"):
